@@ -2,6 +2,7 @@ package types
 
 import (
 	"bytes"
+	"cmp"
 	"encoding/json"
 	"iter"
 	"maps"
@@ -144,11 +145,26 @@ func (s *Set) UnmarshalJSON(b []byte) error {
 
 // MarshalJSON marshals the Set into JSON.
 // Set elements are rendered in hash order, which may differ from the original order.
+// orderedKeys returns the slot keys in encoding order: by the member's hash, then by how far probing displaced it
+// from that hash. Without collisions this is plain slot order. Ordering by slot key alone is not stable when probing
+// wraps around (members hashing to the largest slots, e.g. Long(-1) and Duration(-1ms)): decoding re-inserts the
+// members in encoding order, and every round trip would swap them.
+func (s Set) orderedKeys() []uint64 {
+	keys := slices.Collect(maps.Keys(s.s))
+	slices.SortFunc(keys, func(a, b uint64) int {
+		ha, hb := s.s[a].hash(), s.s[b].hash()
+		if c := cmp.Compare(ha, hb); c != 0 {
+			return c
+		}
+		return cmp.Compare(a-ha, b-hb)
+	})
+	return keys
+}
+
 func (s Set) MarshalJSON() ([]byte, error) {
 	w := &bytes.Buffer{}
 	w.WriteByte('[')
-	orderedKeys := slices.Collect(maps.Keys(s.s))
-	slices.Sort(orderedKeys)
+	orderedKeys := s.orderedKeys()
 	for i, k := range orderedKeys {
 		if i != 0 {
 			w.WriteByte(',')
@@ -171,8 +187,7 @@ func (s Set) String() string { return string(s.MarshalCedar()) }
 func (s Set) MarshalCedar() []byte {
 	var sb bytes.Buffer
 	sb.WriteRune('[')
-	orderedKeys := slices.Collect(maps.Keys(s.s))
-	slices.Sort(orderedKeys)
+	orderedKeys := s.orderedKeys()
 	for i, k := range orderedKeys {
 		if i != 0 {
 			sb.WriteString(", ")
